@@ -382,6 +382,141 @@ def gen_inbound_frames(ctx, real_max):
     return cases
 
 
+def sym(i):
+    return ("%02x" % i) * 32
+
+
+def gen_recv(ctx):
+    """Scripts for the real BlocksChunkReceiver and syncManager (symbolic 32-byte identifiers: byte i repeated)."""
+    rng = ctx.rng
+    quick = ctx.tier == "quick"
+
+    def B(i, big=False, serial=None, hash_=None):
+        return {"hash": sym(i) if hash_ is None else hash_, "big": big, "serial": i if serial is None else serial}
+
+    def step(blocks, has_next, body="blocks", expired=False):
+        return {"expired": expired, "body": body, "blocks": blocks, "has_next": has_next}
+
+    def chunks(bl, k):
+        """split bl into k non-empty chunks (k <= len)"""
+        cuts = sorted(rng.sample(range(1, len(bl)), k - 1)) if len(bl) > 1 and k > 1 else []
+        out, a = [], 0
+        for c_ in cuts + [len(bl)]:
+            out.append(bl[a:c_])
+            a = c_
+        return out
+    cases = []
+
+    def add(n, steps, tag, real=False, hashes=None):
+        cases.append({"kind": "recv", "hashes": [sym(i) for i in range(1, n + 1)] if hashes is None else hashes, "real_ids": real, "steps": steps, "_tag": tag})
+    for n in (1, 2, 3, 5, 8):
+        full = [B(i) for i in range(1, n + 1)]
+        add(n, [step(full, False)], "exact")
+        add(n, [step(full, False), step(full, False), step([B(1)], True)], "after-finish")
+        if n > 1:
+            for k in (2, n):
+                ch = chunks(full, k)
+                add(n, [step(c_, i < len(ch) - 1) for i, c_ in enumerate(ch)], "chunks")
+            ro = full[:]
+            i, j = rng.sample(range(n), 2)
+            ro[i], ro[j] = ro[j], ro[i]
+            add(n, [step(ro, False), step(full, False)], "reordered")
+            miss = full[:n // 2] + full[n // 2 + 1:]
+            add(n, [step(miss, False)], "missing-middle" if n > 2 else "missing")
+            add(n, [step(full[:-1], False)], "missing-last")
+            add(n, [step(full[:-1], True), step(full[-1:], True), step([], False)], "never-finished")
+            wrong = full[:]
+            wrong[n // 2] = B(99)
+            add(n, [step(wrong[:1], True), step(wrong[1:], False), step(full, False)], "wrong-hash-middle")
+            dup = full[:n // 2 + 1] + full[n // 2:]
+            add(n, [step(dup, False)], "duplicate")
+        for hn in (False, True):
+            add(n, [step(full + [B(n + 1)], hn), step([B(n + 2)], False)], "extra")
+            add(n, [step(full, True), step([B(n + 1)], hn)], "extra-next-chunk")
+        add(n, [step([], False)], "empty")
+        add(n, [step(full, False, body="status_bad")], "status-bad")
+        add(n, [step([], False, body="other_ok"), step(full, False)], "other-ok")
+        add(n, [step([], False, body="other_bad"), step(full, False)], "other-bad")
+        add(n, [step(full, False, expired=True)], "expired")
+        if n > 1:
+            add(n, [step(full[:1], True), step(full[1:], False, expired=True)], "expired-later")
+        bigp = rng.randrange(n)
+        big = [B(i, big=(i - 1 == bigp)) for i in range(1, n + 1)]
+        for hn in (False, True):
+            add(n, [step(big, hn), step(full, False)], "too-big")
+        nof = full[:]
+        nof[rng.randrange(n)] = B(0, hash_="", serial=7)
+        add(n, [step(nof, False)], "empty-hash-field")
+        # F8: identifier of block i announced for another content
+        forged = full[:]
+        fp = rng.randrange(n)
+        forged[fp] = B(fp + 1, serial=200 + fp)
+        add(n, [step(forged, False)], "forged", real=True)
+        add(n, [step(full, False)], "genuine-real", real=True)
+    add(0, [step([B(1)], False)], "empty-request")
+    add(0, [step([], False)], "empty-request-empty")
+    add(3, [step([B(1)], True), step([B(1)], True)], "dup-request", hashes=[sym(1), sym(1), sym(2)])
+    add(2, [step([B(0, hash_="", serial=1)], True)], "empty-requested-hash", hashes=["", sym(2)])
+    for _ in range(40 if quick else 1200):
+        n = rng.randrange(1, 7)
+        steps = []
+        nxt = 1
+        for _s in range(rng.randrange(1, 5)):
+            r = rng.random()
+            if r < 0.08:
+                steps.append(step([], rng.random() < 0.5, body=rng.choice(["other_ok", "other_bad", "status_bad"])))
+                continue
+            k = rng.randrange(0, 4)
+            bl = []
+            for _b in range(k):
+                q = rng.random()
+                i = nxt if q < 0.8 else rng.randrange(1, n + 2)
+                bl.append(B(i, big=rng.random() < 0.05, serial=i if rng.random() < 0.9 else 100 + i))
+                nxt = i + 1
+            steps.append(step(bl, rng.random() < 0.6, expired=rng.random() < 0.04))
+        add(n, steps, "random")
+    # ---- syncManager scripts
+    sms = []
+
+    def smcase(ops, tag):
+        sms.append({"kind": "sm", "ops": ops, "_tag": tag})
+    P = lambda b: {"op": "produced", "block": b}
+    N_ = lambda i, known=False, h=None: {"op": "notice", "hash": sym(i) if h is None else h, "known": known}
+    Rr = lambda bl: {"op": "response", "blocks": bl}
+    smcase([P(B(1)), P(B(1)), N_(1), N_(2), N_(2), N_(3, True), N_(3, True), P(B(2)), P(B(3))], "duplicates")
+    smcase([P(B(4, big=True)), P(B(4)), N_(4)], "oversize-then-genuine")
+    smcase([P(B(5, serial=77)), P(B(5))], "forged-then-genuine")
+    smcase([Rr([B(9)]), Rr([B(9)]), Rr([B(9), B(8)]), Rr([]), Rr([B(7, big=True)]), Rr([B(1, serial=50)])], "responses")
+    smcase([P(B(1, hash_="abcd")), N_(1, h="abcd"), P(B(1, hash_="")), N_(1, h=""), P(B(1, hash_="11" * 33)), P(B(1))], "bad-hash-length")
+    smcase([N_(i % 250 + 1) for i in range(0, 301)] + [N_(1), P(B(2)), N_(200), N_(251), N_(1)], "eviction")
+    for _ in range(15 if quick else 300):
+        ops = []
+        for _o in range(rng.randrange(1, 12)):
+            r = rng.random()
+            i = rng.randrange(1, 6)
+            if r < 0.45:
+                ops.append(P(B(i, big=rng.random() < 0.15, serial=i if rng.random() < 0.8 else 100 + i)))
+            elif r < 0.85:
+                ops.append(N_(i, rng.random() < 0.4))
+            else:
+                ops.append(Rr([B(rng.randrange(1, 6), big=rng.random() < 0.2) for _x in range(rng.randrange(0, 3))]))
+        smcase(ops, "random")
+    return cases, sms
+
+
+def coq_blk(b):
+    return "(mk_block %s [%d; %d])" % (cb(bytes.fromhex(b["hash"])), 1 if b["big"] else 0, b["serial"])
+
+
+def coq_body(st):
+    if st["body"] == "other_ok":
+        return "(BOther true)"
+    if st["body"] == "other_bad":
+        return "(BOther false)"
+    return "(BBlocks %s [%s] %s)" % ("false" if st["body"] == "status_bad" else "true", "; ".join(coq_blk(b) for b in st["blocks"]),
+                                     "true" if st["has_next"] else "false")
+
+
 def coq_chain(c):
     v = c["v"] & (2 ** 32 - 1)
     b = lambda x: "true" if x else "false"
@@ -709,7 +844,8 @@ def run(ctx):
                                   "an altered block announcing the genuine identifier makes ChainService.addBlock reject the genuine block: " + o["genuine_err"], {"obs": o}))
             if o["scenario"] == "control" and not (o["add_err"] == "" and o["stored_under_digest"]):
                 pred_fail.append(("C18:chain-control", "a genuine block with an empty Hash field was not stored under the digest of its header", {"obs": o}))
-        rc, log, bp2p = ctx.go_test_binary("p2p", [os.path.join(E, "zz_verif_c18_negotiate_engine_test.go")], "p2p.test", use_overlay=True)
+        rc, log, bp2p = ctx.go_test_binary("p2p", [os.path.join(E, "zz_verif_c18_negotiate_engine_test.go"),
+                                                   os.path.join(E, "zz_verif_c18_blkrecv_engine_test.go")], "p2p.test", use_overlay=True)
         if rc != 0:
             raise RuntimeError("negotiate engine build failed:\n" + log[-3000:])
         rundir = os.path.join(ctx.workdir, "p2prun")      # the package's own test init() loads ./test/sample/sample.key
@@ -740,6 +876,103 @@ def run(ctx):
         dist["negotiate"] = len(neg_cases)
 
     lap("deep engines")
+    # ================================================================= block receive path (package p2p, overlay build)
+    # Runs in every tier: the overlay build of package p2p is cached (measured 1-9 s when cached, ~30 s cold); set
+    # VERIF_C18_NORECV=1 to skip it in the quick tier.
+    recv_items, sm_items, recv_src, sm_src = [], [], [], []
+    if deep or os.environ.get("VERIF_C18_NORECV") != "1":
+        t_b = time.time()
+        rc, log, bp2p = ctx.go_test_binary("p2p", [os.path.join(E, "zz_verif_c18_negotiate_engine_test.go"),
+                                                   os.path.join(E, "zz_verif_c18_blkrecv_engine_test.go")], "p2p.test", use_overlay=True)
+        if rc != 0:
+            raise RuntimeError("p2p (negotiate + blkrecv) engine build failed:\n" + log[-3000:])
+        tm["p2p overlay build"] = round(time.time() - t_b, 1)
+        rundir = os.path.join(ctx.workdir, "p2prun")      # the package's own test init() loads ./test/sample/sample.key
+        os.makedirs(os.path.join(rundir, "test", "sample"), exist_ok=True)
+        for f in ("sample.key", "sample.pub", "sample.id"):
+            if os.path.exists(os.path.join(ctx.repo, "p2p/test/sample", f)):
+                shutil.copy(os.path.join(ctx.repo, "p2p/test/sample", f), os.path.join(rundir, "test", "sample", f))
+        rcases, smcases = gen_recv(ctx)
+        rcases += corpus.get("recv", [])
+        smcases += corpus.get("sm", [])
+        allc = [{"kind": "consts"}] + rcases + smcases
+        fin, fout = os.path.join(ctx.workdir, "recv.in"), os.path.join(ctx.workdir, "recv.out")
+        with open(fin, "w") as f:
+            for c in allc:
+                f.write(json.dumps(c) + "\n")
+        if os.path.exists(fout):
+            os.remove(fout)
+        env = ctx.goenv()
+        env.update({"VERIF_IN": fin, "VERIF_OUT": fout})
+        rc, log = vf.sh([bp2p, "-test.run", "TestVerifC18BlkRecvEngine"], cwd=rundir, env=env, timeout=900)
+        robs = [json.loads(l) for l in open(fout)] if os.path.exists(fout) else []
+        if rc != 0 or len(robs) != len(allc):
+            raise RuntimeError("blkrecv engine failed rc=%s obs=%d/%d:\n%s" % (rc, len(robs), len(allc), log[-3000:]))
+        cache_cap = robs[0]["consts"][0]
+        for c, o in zip(rcases, robs[1:1 + len(rcases)]):
+            obs_items, told, ended = [], [], False
+            for st, so in zip(c["steps"], o["steps"]):
+                tells = so["tells"] or []
+                if so.get("panic"):
+                    pred_fail.append(("C18:recv-panic", "BlocksChunkReceiver.ReceiveResp panicked", {"case": c, "obs": o}))
+                if len(tells) > 1 or (tells and told):
+                    pred_fail.append(("C18:recv-told-twice", "the syncer was told more than once by one block receiver", {"case": c, "obs": o}))
+                if so["offset"] > len(c["hashes"]):
+                    pred_fail.append(("C18:recv-count", "the receiver kept more blocks than requested", {"case": c, "obs": o}))
+                tc, tb = 0, []
+                if tells:
+                    t_ = tells[0]
+                    told.append(t_)
+                    if t_["err"] == 0:
+                        tc, tb = 7, t_["blocks"] or []
+                        got_ids = [b["hash"] for b in tb]
+                        if got_ids != c["hashes"]:
+                            pred_fail.append(("C18:recv-order", "blocks handed to the syncer are not the requested identifiers in order", {"case": c, "obs": o}))
+                        if any(b["big"] for b in tb):
+                            pred_fail.append(("C18:recv-too-big", "a block above the size limit was handed to the syncer", {"case": c, "obs": o}))
+                        if c.get("real_ids") and any(not b["consistent"] for b in tb):
+                            pred_fail.append(("C18:F8-receiver-compares-hash-field",
+                                              "BlocksChunkReceiver delivered a block whose Hash field is the requested identifier but whose header has another digest",
+                                              {"case": c, "obs": o}))
+                    else:
+                        tc = t_["err"]
+                obs_items.append("(%d, %d, %d, [%s], %d)" % (so["status"], so["offset"], tc, "; ".join(coq_blk(b) for b in tb), so["consumed"]))
+            recv_items.append("([%s], [%s], [%s])" % ("; ".join(cb(bytes.fromhex(h)) for h in c["hashes"]),
+                                                      "; ".join("(%s, %s)" % ("true" if st["expired"] else "false", coq_body(st)) for st in c["steps"]),
+                                                      "; ".join(obs_items)))
+            recv_src.append(dict(case=c, obs=o))
+            dist["recv:" + c.get("_tag", "corpus")] = dist.get("recv:" + c.get("_tag", "corpus"), 0) + 1
+        for c, o in zip(smcases, robs[1 + len(rcases):]):
+            ops_t, obs_t = [], []
+            first_seen = {}
+            for op, so in zip(c["ops"], o["ops"]):
+                if op["op"] == "produced":
+                    ops_t.append("OpProduced %s" % coq_blk(op["block"]))
+                    b = op["block"]
+                    if so["code"] == 3 and not (so["fwd_hash"] == b["hash"] and so["fwd_serial"] == b["serial"]):
+                        pred_fail.append(("C18:notice-forward", "a different block than the announced one was forwarded", {"case": c, "obs": o}))
+                    if len(b["hash"]) == 64:
+                        prev = first_seen.get(b["hash"])
+                        if prev is not None and so["code"] == 3 and len(first_seen) < cache_cap:
+                            pred_fail.append(("C18:notice-duplicate", "a block-produced notice for an identifier already seen was forwarded again", {"case": c, "obs": o}))
+                        if prev is not None and prev != ("P", b["serial"], b["big"]) and prev[0] == "P" and not b["big"] and so["code"] == 0 and b["serial"] < 100:
+                            pred_fail.append(("C18:F8-notice-cache-keyed-by-hash-field",
+                                              "a genuine block-produced notice was dropped as a duplicate of a different block that announced the same identifier",
+                                              {"case": c, "obs": o}))
+                        first_seen.setdefault(b["hash"], ("P", b["serial"], b["big"]))
+                elif op["op"] == "notice":
+                    ops_t.append("OpNotice %s %s" % (cb(bytes.fromhex(op["hash"])), "true" if op["known"] else "false"))
+                    if len(op["hash"]) == 64:
+                        if op["hash"] in first_seen and so["code"] != 0 and len(first_seen) < cache_cap:
+                            pred_fail.append(("C18:notice-duplicate", "a new-block notice for an identifier already seen was acted on again", {"case": c, "obs": o}))
+                        first_seen.setdefault(op["hash"], ("N",))
+                else:
+                    ops_t.append("OpResponse [%s]" % "; ".join(coq_blk(b) for b in op["blocks"]))
+                obs_t.append("(%d, %d)" % (so["code"], so["cachelen"]))
+            sm_items.append("(%d, [%s], [%s])" % (cache_cap, "; ".join(ops_t), "; ".join(obs_t)))
+            sm_src.append(dict(case=c, obs=o))
+            dist["sm:" + c.get("_tag", "corpus")] = dist.get("sm:" + c.get("_tag", "corpus"), 0) + 1
+    lap("block receive engine")
     # ================================================================= model evaluation
     head = ["From Coq Require Import NArith List Bool Strings.Byte.", "From Verif Require Import Common.Bytes Codec.ChainId P2P.Frame P2P.Handshake P2P.BlockId.",
             "Import ListNotations.", "Open Scope N_scope.",
@@ -822,6 +1055,13 @@ def run(ctx):
             "Definition MC := Eval vm_compute in mismatches_from chain_ok ccases 0.", "Print MC.",
             "Definition ncases : list (list N * N) := [%s]." % ";\n".join(nitems),
             "Definition MN := Eval vm_compute in mismatches_from negotiate_case_ok ncases 0.", "Print MN."]))
+    if recv_items or sm_items:
+        shards.append(("recv", "recv", 0, head + [
+            "From Verif Require Import P2P.BlockRecv.",
+            "Definition rvcases : list (list bytes * list (bool * body) * list step_obs) := [%s]." % ";\n".join(recv_items),
+            "Definition MRV := Eval vm_compute in mismatches_from recv_case_ok rvcases 0.", "Print MRV.",
+            "Definition smcases : list (N * list sm_op * list (N * N)) := [%s]." % ";\n".join(sm_items),
+            "Definition MSM := Eval vm_compute in mismatches_from sm_case_ok smcases 0.", "Print MSM."]))
     from concurrent.futures import ThreadPoolExecutor
     with ThreadPoolExecutor(max_workers=4) as ex:      # shards are independent coqc processes
         outs = list(ex.map(lambda sh_: coq_eval(ctx, sh_[0], "\n".join(sh_[3])), shards))
@@ -849,6 +1089,14 @@ def run(ctx):
                 corr.append(("model evaluation unparsable (%s)" % name, out[-1000:]))
             elif res["MI"]:
                 corr.append(("inbound handshake over a byte stream and P2P/Inbound.v differ", [dict(case=fcases[i][0], obs=fcases[i][1]) for i in res["MI"][:5]]))
+        elif kind == "recv":
+            if "MRV" not in res or "MSM" not in res:
+                corr.append(("model evaluation unparsable (%s)" % name, out[-1000:]))
+            else:
+                if res["MRV"]:
+                    corr.append(("BlocksChunkReceiver.ReceiveResp and receive_resp (P2P/BlockRecv.v) differ", [recv_src[i] for i in res["MRV"][:3]]))
+                if res["MSM"]:
+                    corr.append(("syncManager notice handlers and P2P/BlockRecv.v differ", [sm_src[i] for i in res["MSM"][:3]]))
         elif kind == "chain":
             if "MC" not in res or "MN" not in res:
                 corr.append(("model evaluation unparsable (%s)" % name, out[-1000:]))
@@ -879,6 +1127,7 @@ def run(ctx):
     ctx.cov["timing_s"] = tm
     # ================================================================= evidence
     evals = len(W) + len(R) + len(ST) + len(HS) + len(BC) + len(chain_obs) + len(neg_cases)
+    evals += len(recv_items) + len(sm_items)
     ctx.cov["evaluations"] = evals
     ctx.cov["traces_validated_against_impl"] = evals
     nontriv = set()
@@ -890,11 +1139,16 @@ def run(ctx):
         nontriv.add(("hs", c["hs"], c["mode"], c["_mut"] if "_mut" in c else "corpus", o["cls"]))
     for c, o in zip(BC, BO2):
         nontriv.add(("blk", c["hash_field"][:4], c["alter_hdr"], c["wire"], o["block_hash"] == o["digest"]))
+    for x in recv_src:
+        nontriv.add(("recv", x["case"].get("_tag", "corpus"), len(x["case"]["hashes"]), tuple((so["status"], (so["tells"] or [{"err": -1}])[0]["err"]) for so in x["obs"]["steps"])))
+    for x in sm_src:
+        nontriv.add(("sm", x["case"].get("_tag", "corpus"), tuple(so["code"] for so in x["obs"]["ops"][:12])))
     ctx.cov["distinct_nontrivial"] = len(nontriv)
     ctx.cov["rule"] = ("distinct (operation, case kind, outcome class, size bucket) tuples: reads by (kind in rt/trunc/flip/oversize/rnd/real, "
                        "class, payload length capped at 64 or truncation offset, chunked reader), writes by (class, limit, payload length "
                        "capped at 64, sub-protocol id), handshakes by (handshaker, mode, mutated field(s), error class), blocks by "
-                       "(hash field kind, header altered, through protobuf, consistent)")
+                       "(hash field kind, header altered, through protobuf, consistent), block-receiver scripts by (scenario, request length, per-step "
+                       "(status, told error)), syncManager scripts by (scenario, per-op decision)")
     ctx.cov["input_distribution"] = dict(sorted(dist.items()))
     ctx.cov["limits"] = {"lowered_max_payload": LIM, "real_max_payload": real_max, "accepted_inbound_versions": vers["vers"]}
     for x in (dict(write=W[0], obs=WO[0]), dict(read=R[0][0], obs=RO[0]), dict(handshake={k: v for k, v in hcases[0][0].items()}, obs=hcases[0][1]),
